@@ -80,7 +80,8 @@ func (l *vhPlainLoader) stamp(n string) (int64, bool) { return 0, false }
 // a history of H operations, every flag / has-it bit / timestamp symbolic.
 func VH_C15_Cache() {
 	h := symParam("H", 2)
-	names := []string{"a", "b"}
+	// the second name is spelled in a way a path cleaner would rewrite: names are opaque keys
+	names := []string{"a", "x//a"}
 	l0 := &vhTSLoader{has: map[string]bool{}, ver: map[string]int{}, mtime: map[string]int64{}, loads: map[string]int{}}
 	l1ts := &vhTSLoader{has: map[string]bool{}, ver: map[string]int{}, mtime: map[string]int64{}, loads: map[string]int{}}
 	l1pl := &vhPlainLoader{has: map[string]bool{}, ver: map[string]int{}, loads: map[string]int{}}
@@ -104,9 +105,9 @@ func VH_C15_Cache() {
 	e.RegisterLoader(loaders[1])
 	// pages that reach the names through include / extends / import: they must see what a direct render sees
 	e.RegisterString("wa", "{% include 'a' %}")
-	e.RegisterString("wb", "{% include 'b' %}")
+	e.RegisterString("wx//a", "{% include 'x//a' %}")
 	cache, auto := true, false // engine defaults
-	model := map[string]*vhC15Entry{"a": {}, "b": {}}
+	model := map[string]*vhC15Entry{"a": {}, "x//a": {}}
 	tag := ""
 	for step := 0; step < h; step++ {
 		op := symChoice(11)
